@@ -173,7 +173,57 @@ func load(cfgName string) *World {
 	for _, fn := range w.Funcs {
 		w.fnIdx[shortName(fn)] = fn
 	}
+	canonicalizeComparisons(w.Funcs)
 	return w
+}
+
+// canonicalizeComparisons rewrites every comparison `CONST op x` as `x op' CONST`, and `bound op p.Read` as
+// `p.Read op' bound`, in the analysed
+// SSA (a op b == b op' a): the rules are written for the common spelling, and a source that says
+// `0 > n` or `nil != p` must get the same verdict as one that says `n < 0` / `p != nil`.
+func canonicalizeComparisons(fns []*ssa.Function) {
+	mirror := map[token.Token]token.Token{token.LSS: token.GTR, token.GTR: token.LSS, token.LEQ: token.GEQ, token.GEQ: token.LEQ, token.EQL: token.EQL, token.NEQ: token.NEQ}
+	for _, fn := range fns {
+		for _, b := range fn.Blocks {
+			for _, ins := range b.Instrs {
+				bo, ok := ins.(*ssa.BinOp)
+				if !ok {
+					continue
+				}
+				m, isCmp := mirror[bo.Op]
+				if !isCmp {
+					continue
+				}
+				isCursor := func(v ssa.Value) bool {
+					u, ok := v.(*ssa.UnOp)
+					if !ok || u.Op != token.MUL {
+						return false
+					}
+					fa, ok := u.X.(*ssa.FieldAddr)
+					if !ok {
+						return false
+					}
+					st, ok := fa.X.Type().Underlying().(*types.Pointer)
+					if !ok {
+						return false
+					}
+					sst, ok := st.Elem().Underlying().(*types.Struct)
+					return ok && sst.Field(fa.Field).Name() == "Read"
+				}
+				_, xc := bo.X.(*ssa.Const)
+				_, yc := bo.Y.(*ssa.Const)
+				switch {
+				case xc && !yc:
+					// CONST op x
+				case !xc && !yc && isCursor(bo.Y) && !isCursor(bo.X):
+					// bound op cursor: the read cursor is written on the left everywhere in this code base
+				default:
+					continue
+				}
+				bo.X, bo.Y, bo.Op = bo.Y, bo.X, m
+			}
+		}
+	}
 }
 
 // shortName: function name without the module prefix, e.g. "thrift/generic.marshalTo",
